@@ -100,6 +100,18 @@ def run_task(task):
     crashers = [p for p in glob.glob(os.path.join(rd, "testdata", "fuzz", "*", "*")) if os.path.isfile(p)
                 and not os.path.basename(p).startswith("seed-")]
     task["crashers"] = crashers
+    if task.get("fuzz") and crashers and rc != 0:
+        # A native fuzz worker that is killed (10 s per-input deadline under load, OOM) also leaves a
+        # "crasher" behind. Re-run the saved inputs as plain seed-corpus cases: only a reproducible
+        # failure counts as a violation, anything else is inconclusive.
+        try:
+            r2 = subprocess.run([task["cmd"][0], "-test.run=^%s$" % task["name"], "-test.timeout=600s"], cwd=rd, env=env,
+                                stdout=subprocess.PIPE, stderr=subprocess.STDOUT, text=True, errors="replace", timeout=700)
+            task["crasher_reproduced"] = r2.returncode != 0
+            task["out"] = (task["out"] or "") + "\n--- crasher re-run ---\n" + (r2.stdout or "")[-3000:]
+        except Exception as e:
+            task["crasher_reproduced"] = False
+            task["out"] = (task["out"] or "") + "\n--- crasher re-run failed: %s ---\n" % e
     return task
 
 def classify(task):
@@ -116,7 +128,7 @@ def classify(task):
         return "ok"
     if "VERIF-VIOLATION" in out:
         return "violation"
-    if task.get("fuzz") and task["crashers"]:
+    if task.get("fuzz") and task["crashers"] and task.get("crasher_reproduced"):
         return "violation"
     return "inconclusive"
 
